@@ -171,6 +171,9 @@ class Ctx:
         if race:
             cmd += ["-race"]
             env["CGO_ENABLED"] = "1"
+        if os.environ.get("VERIF_COVER"):
+            # tools/coverage.sh: statement coverage of /repo reached by the correspondence checks (GOCOVERDIR is set by the caller)
+            cmd += ["-cover", "-coverpkg=github.com/akalin/gopar/..."]
         cmd += ["-o", out, "."]
         sh(cmd, cwd=bdir, env=env, timeout=1800)
         self._harness[key] = out
@@ -178,7 +181,8 @@ class Ctx:
 
     def build_par_cli(self):
         out = os.path.join(self.tmp, "par")
-        sh(["go", "build", "-o", out, "./cmd/par"], cwd=REPO, env=GOENV, timeout=1800)
+        sh(["go", "build"] + (["-cover", "-coverpkg=github.com/akalin/gopar/..."] if os.environ.get("VERIF_COVER") else []) + ["-o", out, "./cmd/par"],
+           cwd=REPO, env=GOENV, timeout=1800)
         return out
 
     # ---------- running ----------
